@@ -97,6 +97,10 @@ func init() {
 			add("ws-rst-window", 1+b, map[string]int{"ws": 1, "calls": 1, "reconnect": 1, "fault": int(vnet.RST)})
 			add("ws-fin-dial", 1+b, map[string]int{"ws": 1, "calls": 1, "reconnect": 1, "fault": int(vnet.FIN), "ydial": 1})
 			add("ws-fin-dialfail", 1+b, map[string]int{"ws": 1, "calls": 1, "reconnect": 1, "fault": int(vnet.FIN), "dialfail": 2})
+			// keepalive on; the client's sending half breaks (writes fail, no read fails yet); the
+			// closer runs after a ping has hit the broken half
+			add("ws-pings-wbroken", 1+b, map[string]int{"ws": 1, "calls": 1, "reconnect": 1, "pings": 1, "wbreak": 1})
+			add("ws-pings-wbroken-sub", 1+b, map[string]int{"ws": 1, "sub": 1, "reconnect": 1, "pings": 1, "wbreak": 1})
 			add("http", 1+b, map[string]int{"ws": 0, "calls": 1})
 			add("custom", 1+b, map[string]int{"ws": 0, "custom": 1, "calls": 1})
 			return ps
@@ -117,6 +121,9 @@ func closeBody(s *vsched.Sched, p Param) {
 	var err error
 	if p.I("ws") == 1 {
 		opts := []jsonrpc.Option{jsonrpc.WithPingInterval(0), jsonrpc.WithTimeout(0)}
+		if p.I("pings") == 1 {
+			opts = []jsonrpc.Option{jsonrpc.WithPingInterval(time.Second), jsonrpc.WithTimeout(3 * time.Second)}
+		}
 		if p.I("reconnect") == 1 {
 			opts = append(opts, jsonrpc.WithReconnectBackoff(10*time.Millisecond, 40*time.Millisecond))
 		} else {
@@ -141,6 +148,7 @@ func closeBody(s *vsched.Sched, p Param) {
 	has := func(k string) bool { _, ok := obs.Get(k); return ok }
 	var mu sync.Mutex
 	dialsAtClose := -1
+	var brokenAt time.Duration
 	var chans []*subState
 	subCtx, subCancel := context.WithCancel(context.Background())
 	s.Teardown = func() { subCancel(); w.Teardown() }
@@ -152,6 +160,11 @@ func closeBody(s *vsched.Sched, p Param) {
 			return has("closed")
 		case "after-go":
 			return has("closed")
+		case "close-go": // a ping tick after the sending half broke
+			mu.Lock()
+			at := brokenAt
+			mu.Unlock()
+			return at > 0 && s.Now() >= at+1500*time.Millisecond
 		}
 		return true
 	}
@@ -280,7 +293,18 @@ func closeBody(s *vsched.Sched, p Param) {
 			w.Net.Link(0).Sever(f)
 		})
 	}
+	if p.I("wbreak") == 1 {
+		s.Go("zbreak", func() {
+			w.Net.Link(0).BreakWrites(vnet.C2S)
+			mu.Lock()
+			brokenAt = s.Now() + 1
+			mu.Unlock()
+		})
+	}
 	s.Go("zzcloser", func() {
+		if p.I("wbreak") == 1 {
+			s.Env("close-go")
+		}
 		obs.Set("iss-close", "1")
 		closer()
 		mu.Lock()
